@@ -399,12 +399,25 @@ func BVBin(op Op, a, b *Term) *Term {
 		if b.IsConst() && b.C == 0 {
 			return a
 		}
+		// (x + c1) + c2 => x + (c1+c2): keeps the internal/unix epoch shifts of package time from piling up
+		if a.IsConst() && !b.IsConst() {
+			a, b = b, a
+		}
+		if b.IsConst() && a.Op == OpBVAdd && a.Args[1].IsConst() {
+			return BVBin(OpBVAdd, a.Args[0], BV(w, a.Args[1].C+b.C))
+		}
+		if b.IsConst() && a.Op == OpBVAdd && a.Args[0].IsConst() {
+			return BVBin(OpBVAdd, a.Args[1], BV(w, a.Args[0].C+b.C))
+		}
 	case OpBVSub:
 		if b.IsConst() && b.C == 0 {
 			return a
 		}
 		if a == b {
 			return BV(w, 0)
+		}
+		if b.IsConst() {
+			return BVBin(OpBVAdd, a, BV(w, -b.C))
 		}
 	case OpBVMul:
 		if a.IsConst() {
